@@ -10,6 +10,8 @@ the consumer is *computed* from the base element instead of being forgotten:
   verif::iter::Copied(base)           deref of every base element
   verif::iter::Zip(a, b)              pairs; ends when either side ends (a is polled first)
   verif::iter::Enumerate(base, n)     (n, elem), n counts up from its initial value
+  verif::iter::Chain(a, b)            a, then b
+  verif::iter::Filter(base, p) / FilterMap(base, f)   only over iterators of known length (each step may skip)
   verif::iter::Rev(base)              order reversed: kept opaque (order matters for float folds)
 
 `step(sx, st, it, k)` performs one `next()`; the continuation k(st, elem|None, new_it) receives the
@@ -33,15 +35,20 @@ def kind_of(v):
     return None
 
 
-def is_concrete(it):
-    """an iterator whose remaining length is known (only built from by-value arrays)"""
+def is_concrete(it, sx=None, st=None):
+    """an iterator whose remaining length is known (built from by-value arrays / Options), possibly behind
+    references (by_ref) when a state is given"""
+    n = 0
+    while it[0] == 'ref' and sx is not None and st is not None and n < 8:
+        it = sx.read_cell(st, it[1], it[2])
+        n += 1
     k = kind_of(it)
     if k == 'Array':
         return True
-    if k in ('Map', 'Copied', 'Enumerate'):
-        return is_concrete(it[3][0])
-    if k == 'Zip':
-        return is_concrete(it[3][0]) and is_concrete(it[3][1])
+    if k in ('Map', 'Copied', 'Enumerate', 'Filter', 'FilterMap'):
+        return is_concrete(it[3][0], sx, st)
+    if k in ('Zip', 'Chain'):
+        return is_concrete(it[3][0], sx, st) and is_concrete(it[3][1], sx, st)
     return False
 
 
@@ -153,6 +160,51 @@ def step(sx, st, it, k, elem_ty=None):
             return k(s, ('tuple', (n, e)), mk('Enumerate', nb, T.op('add', n, T.mk_int(1)) if n[0] != 'int' else T.mk_int(n[1] + 1)))
         ee = (elem_ty.get('elems') or [None, None])[1] if elem_ty and elem_ty.get('k') == 'tuple' else None
         return step(sx, st, base, k_e, ee)
+    if kind == 'Chain':
+        a, b = parts
+
+        def k_ca(s, e, na):
+            if e is not None:
+                return k(s, e, mk('Chain', na, b))
+            return step(sx, s, b, lambda s2, e2, nb: k(s2, e2, mk('Chain', na, nb)), elem_ty)
+        return step(sx, st, a, k_ca, elem_ty)
+    if kind in ('Filter', 'FilterMap'):
+        base, f = parts
+        if not is_concrete(base, sx, st):
+            # skipping an unknown number of elements of an unknown sequence: not a single symbolic step
+            raise Unsupported('%s over an iterator of unknown length' % kind.lower())
+
+        def k_f(s, e, nb):
+            if e is None:
+                return k(s, None, mk(kind, nb, f))
+            tmp = sx.new_heap(None, None)
+            if kind == 'Filter':
+                cid = sx.new_heap(None, None)
+                s.cells[cid] = e
+                argt = ('tuple', (('ref', cid, ()),))
+            else:
+                argt = ('tuple', (e,))
+
+            def then(sx_, s2, v):
+                out = []
+                if kind == 'Filter':
+                    for s3, b_ in sx.fork_bool(s2, v):
+                        if b_:
+                            out.extend(k(s3, e, mk(kind, nb, f)))
+                        else:
+                            out.extend(step(sx, s3, mk(kind, nb, f), k, elem_ty))
+                else:
+                    for s3, v3 in sx.models.expand_enum(s2, v):
+                        if v3[2] == 1:
+                            out.extend(k(s3, v3[3][0], mk(kind, nb, f)))
+                        else:
+                            out.extend(step(sx, s3, mk(kind, nb, f), k, elem_ty))
+                return out
+            r = sx.call_closure_value(s, s.frames[-1], f, argt, (tmp, ()), ('then', then))
+            if r is None:
+                raise Unsupported('%s with an opaque callable' % kind.lower())
+            return r
+        return step(sx, st, base, k_f, None)
     raise Unsupported('next() on iterator adapter %s' % kind)
 
 
@@ -164,13 +216,18 @@ def havoc(sx, rec, it, label='it'):
         return it
     parts = it[3]
     if kind == 'Array':
-        raise Unsupported('havoc of a concrete array iterator')
+        # position unknown after some iterations of an enclosing loop: an opaque iterator (sound)
+        s = sx.named('L%d.%s.array_iter' % (rec['id'], label), None)
+        rec['havoc_syms'].append(s)
+        return s
     if kind in ('Copied', 'Rev'):
         return mk(kind, havoc(sx, rec, parts[0], label))
     if kind == 'Map':
         return mk('Map', havoc(sx, rec, parts[0], label), parts[1])
     if kind == 'Zip':
         return mk('Zip', havoc(sx, rec, parts[0], label + '.a'), havoc(sx, rec, parts[1], label + '.b'))
+    if kind == 'Chain':
+        return mk('Chain', havoc(sx, rec, parts[0], label + '.a'), havoc(sx, rec, parts[1], label + '.b'))
     if kind == 'Enumerate':
         s = sx.named('L%d.%s.index' % (rec['id'], label), {'s': 'usize', 'k': 'usize'})
         rec['havoc_syms'].append(s)
@@ -185,7 +242,7 @@ def bases(it):
         return [it]
     if kind == 'Array':
         return []
-    if kind == 'Zip':
+    if kind in ('Zip', 'Chain'):
         return bases(it[3][0]) + bases(it[3][1])
     return bases(it[3][0])
 
